@@ -1353,6 +1353,7 @@ func runCrypt(c *engine.Ctx) engine.Result {
 	cryptCustom(e)
 	cryptMutate(e)
 	cryptArbitrary(e)
+	cryptFlows(e)
 
 	r.Set("exhaustive_subspaces", []string{"single-bit flips of each mutated envelope", "truncation lengths of each mutated envelope", "hand-built ciphertext lengths 0..40 x 8 envelope variants per ciphertext", "4x4 placement matrix x direction x message type"})
 	r.Set("mutated_envelopes_still_decrypting_to_original", map[string]int64{
@@ -1399,5 +1400,7 @@ func runCrypt(c *engine.Ctx) engine.Result {
 	r.Require("arbitrary_envelope_aead", 500)
 	r.Require("arbitrary_envelope_short", 100)
 	r.Require("arbitrary_length_0", 1)
+	r.Require("flows_previous_pair_still_opens:same-object-enrolled-again", 5)
+	r.Require("flows_previous_pair_still_opens:old-object-enrolled-again-after-being-recorded", 5)
 	return res
 }
